@@ -910,6 +910,11 @@ pub fn replay(case: &Value) -> Vec<Violation> {
             // reproduce the overwrite context: a longer and a shorter value were stored under the same key before
             let _ = check_range(&mut ctx, l + 17, 0, 1);
             let _ = check_range(&mut ctx, l / 2, 0, 1);
+            if l <= 20_000 {
+                let p = ctx.dir.join("cas").join(ondisk::path_of_hash(&b3(&pattern(l))));
+                std::fs::create_dir_all(p.parent().unwrap()).unwrap();
+                std::fs::write(&p, b"stale").unwrap();
+            }
             if i["size_reader"].as_bool() == Some(true) {
                 let _ = check_range(&mut ctx, l, 0, 0);
                 check_size_reader(&mut ctx, l)
